@@ -304,6 +304,7 @@ func buildField(ww *conversionVisitor, node sourcewalk.FieldNode) (*descriptorpb
 				},
 			}
 			proto.SetExtension(desc.Options, validate.E_Field, rules)
+			ww.file.ensureImport(bufValidateImport)
 		}
 
 		if st.Bool.ListRules != nil {
@@ -331,6 +332,7 @@ func buildField(ww *conversionVisitor, node sourcewalk.FieldNode) (*descriptorpb
 				},
 			}
 			proto.SetExtension(desc.Options, validate.E_Field, rules)
+			ww.file.ensureImport(bufValidateImport)
 		}
 
 		return desc, nil
@@ -573,6 +575,7 @@ func buildField(ww *conversionVisitor, node sourcewalk.FieldNode) (*descriptorpb
 			}
 
 			proto.SetExtension(desc.Options, validate.E_Field, rules)
+			ww.file.ensureImport(bufValidateImport)
 		}
 
 		if st.Integer.ListRules != nil {
@@ -717,6 +720,7 @@ func buildField(ww *conversionVisitor, node sourcewalk.FieldNode) (*descriptorpb
 				},
 			}
 			proto.SetExtension(desc.Options, validate.E_Field, rules)
+			ww.file.ensureImport(bufValidateImport)
 		}
 
 		if st.String_.ListRules != nil {
@@ -749,6 +753,7 @@ func buildField(ww *conversionVisitor, node sourcewalk.FieldNode) (*descriptorpb
 				},
 			}
 			proto.SetExtension(desc.Options, validate.E_Field, rules)
+			ww.file.ensureImport(bufValidateImport)
 		}
 
 		return desc, nil
